@@ -76,6 +76,42 @@ CHECKS = {
   text="A base program legal under every option vector gets one construct from a ~65-entry catalogue planted at a random admissible slot (top level, bodies, loops, branches, nested defs, lambda defaults/bodies, comprehension clauses); under each of the 2^6 FileOptions vectors the rule table says whether it violates: then it must be rejected statically on the plant's line with no code run, otherwise it must not be rejected. The catalogue x slots of a fixed rich base is enumerated exhaustively. Recursion: all cycles over <=3 (thorough <=4) functions x all edge-kind vectors {plain, lambda, twin closures, sorted/min/max, comprehension} x back-edge targets: with recursion off the re-entering call fails and the function is not entered again, with recursion on the cycle proceeds.",
   design_ref="DESIGN.md section 4, C09",
   note="Trusts the rule table written from doc/spec.md; only the first error's position is asserted."),
+ "C02": dict(
+  technique="generated-input robustness testing in a crash-isolated child process: token soups, token-level mutations of the repository's test corpus and of generated programs, structural bombs, hostile built-in calls and cyclic-graph programs, with a 'returns normally within budget' oracle",
+  category="exploration",
+  text="Every case runs in a child (own address-space limit) under recover() with a step budget from {100, 1000, 100000}: (source) token soups, mutated testdata chunks and generated programs, 64 KiB nesting bombs, random bytes, under a drawn FileOptions vector; (call) every universe built-in, every method of sample values, struct/json/math/time members (catalogue discovered at run time) x 0-4 positional and 0-2 keyword arguments from a 65-value hostile pool, on mutable/frozen/being-iterated receivers, via starlark.Call and via f(*a, **k); every callee x every pool value for arity <= 1 exhaustively (thorough); (graph) generated modules with cycles through lists, dicts, tuples, structs, closures and bound methods followed by str/repr/==/</hash/json.encode/sorted/in/format. A recovered panic, a death by stack overflow/nil dereference/fatal error, or steps beyond the budget is a violation.",
+  design_ref="DESIGN.md section 4, C02; section 2 (crash isolation)",
+  note="Out-of-memory deaths and per-case timeouts (built-ins do not count steps) are outside the claim and only counted; two catalogued findings are excluded by narrow predicates (makeslice panic on untrusted lengths; unbounded recursion printing a struct that is part of a cycle)."),
+ "C08": dict(
+  technique="exhaustive enumeration against an independent reference binder (validated against CPython at development time), plus a model of UnpackArgs written from its documentation",
+  category="exploration",
+  text="All 280 signatures in the stated bounds (as def and as lambda) x calls with 0-4 positionals, named subsets, *seq of length 0-3 and **dict of 0-2 entries incl. duplicates, through compiled call shapes (CALL/CALL_VAR/CALL_KW/CALL_VAR_KW) and through starlark.Call: when the reference binder binds, every parameter must hold exactly the predicted object; when it rejects, the call must fail. Thorough enumerates the full product (1.1e8 cases); quick a seeded half of the bindable calls and 1/40 of the rest. UnpackArgs/UnpackPositionalArgs: every marker sequence over {n, n?, n??} for 0-4 parameters x 12 target types x right/wrong/None arguments; a target whose argument fails its type check must keep its sentinel.",
+  design_ref="DESIGN.md section 4, C08",
+  note="Trusts the reference binder (agreed with CPython 3.11 on 23.7M (signature, call) pairs at development time; python3 is not used at run time)."),
+ "C10": dict(
+  technique="property testing against math/big: exhaustive boundary grids plus rapid values for every numeric operator and built-in, run under both Int representations",
+  category="exploration",
+  text="Arithmetic, bitwise, shift, comparison, conversion (int(text, base) for all bases and prefix forms, str/repr/%d/%x/%o, float<->int) and int/float mixed operations, range (len, index, in, slices, equality), enumerate, repetition and math.floor/ceil/round are evaluated from rendered source (decimal/hex/octal/binary spellings) and through the Go API over pools dense around 0, +-2^31, 2^32, 2^53, 2^63, 2^64, 2^511/512 and random magnitudes to 2^1024, exhaustively over the boundary grid for the core operators; results must equal exact math/big arithmetic or fail where the spec allows. An extra process repeats the run with the address-space-starved fallback Int representation and verifies by three detectors that it is active.",
+  design_ref="DESIGN.md section 4, C10",
+  note="int_generic.go (32-bit/non-POSIX) cannot be executed in this sandbox; NaN ordering and math.round beyond 2^53 are not asserted."),
+ "C11": dict(
+  technique="algebraic-law property testing: exhaustive pairs and triples over a cross-representation value pool plus rapid twins/near-misses, checked against a reference equivalence/order model",
+  category="exploration",
+  text="Over a 276-value pool (413 thorough) of bools, ints/floats of equal magnitude across representations, strings around the 12-byte hashing switch, bytes, tuples/lists nested to the comparison limit, ranges, structs, functions, built-ins and time values, all pairs and triples are checked for reflexivity, symmetry, transitivity, != as negation, hash/dict/set coherence of equal values (Go API and Starlark source), hash stability (repeat, GC, freeze), trichotomy and derived operators on ordered types, and agreement with the model; sorted must be a stable ordered permutation with and without key/reverse, min/max must return an extreme input element.",
+  design_ref="DESIGN.md section 4, C11",
+  note="Beyond the comparison depth limit only consistent failure is demanded, and only for the ordered types the property lists; host-defined Comparable types are not generated."),
+ "C13": dict(
+  technique="property testing against naive reference implementations written from the specification: exhaustive small receivers x index/slice triples and method arguments, plus rapid receivers; references validated against CPython at development time",
+  category="exploration",
+  text="Indexing and slicing of strings, bytes, lists, tuples and ranges over every (start, stop, step) in [-n-3, n+3] plus None, +-2^31, +-2^62 on all receivers of length <= 5 (thorough <= 8) over a 3-letter alphabet; find/index/count/startswith/endswith with sub-ranges, split/rsplit/splitlines/partition/strip/replace/join/removeprefix, case methods and predicates, format and % interpolation, list methods, reversed/zip/enumerate/sorted/any/all/min/max, +, *, in: results are compared structurally with explicit-loop references, or failure vs success.",
+  design_ref="DESIGN.md section 4, C13; appendix C",
+  note="ASCII text only (plus a fixed UTF-8 sample); where doc/spec.md is silent the check is silent; two catalogued findings are excluded by narrow predicates (strip with an empty cutset; makeslice panic on a huge maxsplit)."),
+ "C15": dict(
+  technique="round-trip property testing: Eval(repr(v)) == v and unquote(Quote(s)) == s over generated and exhaustively enumerated values; termination of printing on cyclic graphs in a child process",
+  category="exploration",
+  text="Every Unicode scalar value (quick: planes 3-13 sampled) alone and in context, every byte string of length <= 2, ~5000 boundary floats and ints, rapid strings over all code-point classes, floats from random bit patterns, ints of any size and containers to depth 6 with shared substructure: repr must be valid source evaluating to an equal value of the same type (floats bit-identical), str(s) == s, Quote/unquote inverse and idempotent; str/repr/%s/%r of cyclic list/dict/tuple graphs must terminate (64 MB stack cap, child process).",
+  design_ref="DESIGN.md section 4, C15",
+  note="Invalid UTF-8 in text strings is outside the property and discarded; structs are outside its domain (their cyclic printing is a C02 finding)."),
 }
 
 PENDING_REASON = "check not built yet in this session (work in progress; DESIGN.md section 4 describes the planned generated-input check)"
